@@ -52,6 +52,36 @@ def run(ctx):
                 if (('cmt' in kinds and opt['strip_comments'] == 'true') or ('str' in kinds and opt['truncate_strings'] != 'unset')
                         or opt['keyword_case'] != 'unset' or opt['identifier_case'] != 'unset'):
                     ctx.nontrivial((p.key, mode, tuple(sorted(meta[-1]['opt'].items()))))
+    # comment adjacency cover: for every PAIR of neighbouring token labels the grammar produces, one program with a
+    # block comment written tight between exactly those two tokens (all other gaps single blanks), strip_comments alone
+    # and together with the whitespace stripper - "no two tokens are fused" for every kind of neighbourhood
+    from sqlparse import lexer as _lexer, tokens as _T
+    seen_pairs = set()
+    base = {k: 'unset' for k in fmtfam.ORDER}
+    for p in progs:
+        sp = None
+        for i in range(len(p.tokens) - 1):
+            pair = (p.tokens[i], p.tokens[i + 1])
+            if pair in seen_pairs:
+                continue
+            if sp is None:
+                sp = sqlprog.spell(p, rng, gaps='blank')
+                if not sqlprog.lexes_as_intended(sp):
+                    break
+            seen_pairs.add(pair)
+            a, b = sp.tokspans[i][1], sp.tokspans[i + 1][0]
+            text = sp.text[:a] + '/* c */' + sp.text[b:]
+            toks = [v for tt, v in _lexer.tokenize(text) if tt not in _T.Whitespace and tt not in _T.Comment]
+            if toks != [v for tt, v in _lexer.tokenize(sp.text) if tt not in _T.Whitespace and tt not in _T.Comment]:
+                continue          # the comment itself changed the tokens around it (e.g. `a./* c */b`): not this property
+            for extra in ({}, {'strip_whitespace': 'true'}):
+                opt = dict(base, strip_comments='true', **extra)
+                tr = formatrec.format_trace(len(traces), text, opt, second=True)
+                traces.append(tr)
+                meta.append({'text': text, 'opt': {k: v for k, v in opt.items() if v != 'unset'}})
+                ctx.evals()
+                ctx.nontrivial(('adjacent-comment', pair, tuple(sorted(extra))))
+    ctx.cov['comment_adjacency_pairs'] = len(seen_pairs)
     for m in meta[3:6]:
         ctx.sample(m)
     ctx.cov['unspellable'] = unspellable
